@@ -111,3 +111,57 @@ func VF_C10_Meta() {
 	o1, o2 := l.GetOpID(), l2.GetOpID()
 	vf.Assert(o1.Lamport == o2.Lamport && o1.Seq == o2.Seq, "C10 same identifiers after a following call")
 }
+
+// VF_C10_Document: a document whose state was built by a two-replica history
+// (replaced containers in the cemetery, tombstones, updated array slots) is
+// exported and imported into a fresh instance; both then receive the same
+// further remote operation and perform the same local call.
+func VF_C10_Document() {
+	vf.HashAbstract(true)
+	a, b := vfNewDoc("a"), vfNewDoc("b")
+	vf.Assume(a.doc.GetCUID() != b.doc.GetCUID())
+	vfDocBase(a, b)
+	var menu2, menuC []int
+	if vf.Tier() == 0 {
+		menu2, menuC = []int{0, 2, 6, 7}, []int{1, 3}
+	}
+	okA := docOp("h1", a)
+	okB := docOpFrom("h2", b, menu2)
+	vf.Assume(okA && okB)
+	opsA, opsB := a.flush(), b.flush()
+	a.receive(opsB)
+	b.receive(opsA)
+	meta, snap, err := a.doc.GetMetaAndSnapshot()
+	vf.Assert(err == nil, "C10 export succeeds")
+	craw, _ := newDocument(vfBase("other", model.TypeOfDatatype_DOCUMENT, "CCCCCCCCCCCCCCCC"), nil, nil)
+	c := craw.(*document)
+	vf.Assert(c.SetMetaAndSnapshot(meta, snap) == nil, "C10 import succeeds")
+	vf.Reach("restored")
+	vf.Assert(jsonDeepEq(a.doc.ToJSON(), c.ToJSON()), "C10 restored document has the same readable state")
+	vf.Assert(docStructEq(a.doc, c), "C10 restored document is structurally equal")
+	vf.Assert(docInv(c), "C10 restored containers satisfy the invariants")
+	oa, oc := a.doc.GetOpID(), c.GetOpID()
+	vf.Assert(vf.All(oa.Lamport == oc.Lamport, oa.Seq == oc.Seq, oa.CUID == oc.CUID), "C10 operation id restored")
+	// re-export
+	meta2, snap2, err2 := c.GetMetaAndSnapshot()
+	draw, _ := newDocument(vfBase("other2", model.TypeOfDatatype_DOCUMENT, "DDDDDDDDDDDDDDDD"), nil, nil)
+	dd := draw.(*document)
+	vf.Assert(err2 == nil && dd.SetMetaAndSnapshot(meta2, snap2) == nil && jsonDeepEq(a.doc.ToJSON(), dd.ToJSON()) &&
+		docStructEq(a.doc, dd), "C10 re-exported snapshot is equivalent")
+	// continuation: a further remote operation from b reaches both
+	if docOpFrom("cont", b, menuC) {
+		ops := b.flush()
+		a.receive(ops)
+		_, e := c.ReceiveRemoteModelOperations(ops, false)
+		vf.Assert(e == nil, "C10 restored document accepts the remote operation")
+		vf.Reach("continued")
+		vf.Assert(jsonDeepEq(a.doc.ToJSON(), c.ToJSON()), "C10 original and restored respond identically to a remote operation")
+		vf.Assert(jsonDeepEq(a.doc.ToJSON(), b.doc.ToJSON()), "C01 replicas still agree")
+	}
+	// and the same local call on both
+	_, la := a.doc.PutToObject("k", "local-after")
+	_, lc := c.PutToObject("k", "local-after")
+	vf.Assert((la == nil) == (lc == nil) && jsonDeepEq(a.doc.ToJSON(), c.ToJSON()), "C10 original and restored respond identically to a local call")
+	la2, lc2 := a.doc.GetOpID(), c.GetOpID()
+	vf.Assert(vf.All(la2.Lamport == lc2.Lamport, la2.Seq == lc2.Seq, la2.CUID == lc2.CUID), "C10 the next local operation gets the same identifier on both")
+}
